@@ -234,7 +234,7 @@ Definition get_bytes_prog (id : bytes) : prog (lookup bytes) :=
 Definition trunc_fail (p : path) : prog bool :=
   Op (OTruncate p 0) (fun _ => Op (OClose p) (fun _ => Ret false)).
 
-Definition copy_rewrite (rd : reader) (out : bytes) (size : nat) (bigger : bool) : prog bool :=
+Definition copy_rewrite_body (rd : reader) (out : bytes) (size : nat) (bigger : bool) : prog bool :=
   let p := DatP out in
   Op (open_with p (copy_open_flags ++ if bigger then copy_open_flags_big else [])) (fun r =>
     match r with
@@ -260,6 +260,13 @@ Definition copy_rewrite (rd : reader) (out : bytes) (size : nat) (bigger : bool)
     | _ => Ret false
     end).
 
+(* the model follows the code only as long as the code keeps the order of operations the
+   theorems are about (flags read from the AST by genconsts); otherwise it refuses, and every
+   theorem about Put is re-opened *)
+Definition copy_rewrite (rd : reader) (out : bytes) (size : nat) (bigger : bool) : prog bool :=
+  if copy_commit_ok && copy_truncates_on_failure && copy_removes_on_close_failure
+  then copy_rewrite_body rd out size bigger else Ret false.
+
 Definition copy_file_prog (rd : reader) (out : bytes) (size : nat) : prog bool :=
   let p := DatP out in
   Op (OStat p) (fun r =>
@@ -282,7 +289,7 @@ Definition copy_file_prog (rd : reader) (out : bytes) (size : nat) : prog bool :
     end).
 
 (* Cache.putIndexEntry (verify mode off); tm is time.Now().UnixNano() *)
-Definition put_index_prog (id out : bytes) (size : nat) (tm : Z) : prog bool :=
+Definition put_index_body (id out : bytes) (size : nat) (tm : Z) : prog bool :=
   let p := IdxP id in
   let entry := encode_entry id out (Z.of_nat size) tm in
   Op (open_with p index_open_flags) (fun r =>
@@ -298,8 +305,11 @@ Definition put_index_prog (id out : bytes) (size : nat) (tm : Z) : prog bool :=
     | _ => Ret false
     end).
 
+Definition put_index_prog (id out : bytes) (size : nat) (tm : Z) : prog bool :=
+  if index_write_then_truncate && index_removes_on_failure then put_index_body id out size tm else Ret false.
+
 (* Cache.put *)
-Definition put_prog (id : bytes) (rd : reader) (tm : Z) : prog put_result :=
+Definition put_prog_body (id : bytes) (rd : reader) (tm : Z) : prog put_result :=
   if negb (rd_seek1 rd) || negb (rd_ok1 rd) then Ret PutErrEarly else
   let size := length (rd_pass1 rd) in
   let out := H (rd_pass1 rd) in
@@ -307,6 +317,9 @@ Definition put_prog (id : bytes) (rd : reader) (tm : Z) : prog put_result :=
     if ok then bind (put_index_prog id out size tm) (fun ok2 =>
                  Ret (if ok2 then PutOk out size else PutFailed out size))
     else Ret (PutFailed out size)).
+
+Definition put_prog (id : bytes) (rd : reader) (tm : Z) : prog put_result :=
+  if put_order_ok then put_prog_body id rd tm else Ret PutErrEarly.
 
 (* ---- sequential cache API *)
 Definition get (fs : files) (id : bytes) := snd (run_seq (get_prog id) fs).
